@@ -104,7 +104,7 @@ def generate(rng, tier):
         kind = rng.choice(gen.KINDS_KEY)
         lspec.append((f"lp{j}", kind, gen.gen_values(rng, kind, nl, rng.choice(gen.NA_PATTERNS), "few", 0.2, tags)))
     for j in range(rng.randint(0, 3)):
-        kind = rng.choice(gen.KINDS_KEY + ["obj", "int32", "float32", "uint64", "timedelta"])
+        kind = rng.choice(gen.KINDS_KEY + ["obj", "int32", "float32", "uint64", "timedelta", "complex"])
         name = f"rp{j}" if rng.random() < 0.9 else "lp0"
         if any(s[0] == name for s in rspec): continue
         rspec.append((name, kind, gen.gen_values(rng, kind, nr, rng.choice(gen.NA_PATTERNS), "few", 0.2, tags)))
@@ -257,6 +257,18 @@ def _execute(case, edit):
                         kind = "fill-not-missing" if isinstance(d[0], int) and d[0] < len(exp) and exp[d[0]] == canon.NA else "right-payload-wrong"
                         res.violate(f"{join}:{kind}", f"right column {n}: {d}; {ctx}")
                         break
+                    # "missing values (in a type able to hold them)": the library itself has to see the filled cells as missing
+                    if join == "left_join":
+                        try:
+                            flags = np.asarray(dict.__getitem__(out, n).is_na()).tolist()
+                        except Exception as e:
+                            res.violate(f"{join}:is_na-raised:{exc_name(e)}", f"is_na() of the joined column {n} raised {e!r}; {ctx}")
+                            break
+                        bad = [i for i, r_ in enumerate(rows) if match[r_] < 0 and not flags[i]]
+                        if bad:
+                            res.violate(f"{join}:fill-not-seen-as-missing-by-is_na", f"right column {n} ({np.asarray(dict.__getitem__(out, n)).dtype}): rows {bad[:5]} have no match but is_na() is False there; {ctx}")
+                            break
+                        res.count("fill-is_na-checked")
     elif join in ("semi_join", "anti_join"):
         rows = [i for i in range(nl) if (match[i] >= 0) == (join == "semi_join")]
         if expect_cols(lnames):
